@@ -175,6 +175,10 @@ pub struct Client {
     pub accept: Accept,
     pub read_fault: bool,
     pub write_fault: bool,
+    /// a server-side write on this connection failed (not EINTR): the client can no longer be written to
+    pub srv_write_failed: bool,
+    /// ... and that happened inside flush_outgoing_writes() while the application still owed it answers
+    pub failed_in_flush_while_owed: bool,
     /// tags yielded to the application, in order
     pub yielded: Vec<String>,
     /// tags the application answered (respond() returned Ok), in order, with the serialised bytes
@@ -268,6 +272,8 @@ pub struct ServerSim {
     pub err400_seen: u64,
     /// a client received its 100 Continue while it was still withholding the body
     pub got_100_while_withholding: u64,
+    /// the library call whose syscall log is being digested is flush_outgoing_writes
+    pub in_flush: bool,
     /// a request was yielded from a connection that had a request rejected before
     pub yield_after_error: u64,
 }
@@ -386,6 +392,7 @@ impl ServerSim {
             continue_waits: 0,
             err400_seen: 0,
             got_100_while_withholding: 0,
+            in_flush: false,
             yield_after_error: 0,
         })
     }
@@ -483,6 +490,8 @@ impl ServerSim {
                                     accept: Accept::NotYet,
                                     read_fault: false,
                                     write_fault: false,
+                                    srv_write_failed: false,
+                                    failed_in_flush_while_owed: false,
                                     yielded: vec![],
                                     responded: vec![],
                                     expected_out: vec![],
@@ -953,7 +962,10 @@ impl ServerSim {
             });
         }
         let log = world::with(|w| w.take_log());
-        self.account_log(&log, st)?;
+        self.in_flush = true;
+        let r = self.account_log(&log, st);
+        self.in_flush = false;
+        r?;
         if self.flags.well_behaved {
             // queued responses that fit the socket buffer are delivered without polling
             for (id, exp_len, free) in before {
@@ -1081,6 +1093,18 @@ impl ServerSim {
                         st.fault("F-wintr");
                     } else {
                         st.fault("F-werr:server-write-failed");
+                        if let Some(cid) = self.conn_to_client.get(*conn) {
+                            let owed = self.outstanding.iter().any(|o| o.1 == *cid);
+                            let in_flush = self.in_flush;
+                            if let Some(cl) = self.clients.get_mut(cid) {
+                                if *e != libc::EAGAIN {
+                                    cl.srv_write_failed = true;
+                                    if in_flush && owed {
+                                        cl.failed_in_flush_while_owed = true;
+                                    }
+                                }
+                            }
+                        }
                         if let Some(cid) = self.conn_to_client.get(*conn) {
                             if self.outstanding.iter().any(|o| o.1 == *cid) {
                                 self.write_failures_with_inflight += 1;
@@ -1501,6 +1525,20 @@ impl ServerSim {
                     streams += 1;
                     let cid = self.conn_to_client.get(*conn).cloned().unwrap_or(usize::MAX);
                     if let Some(cl) = self.clients.get(&cid) {
+                        if cl.srv_write_failed && cl.accept == Accept::Served && !cl.closed {
+                            let class = if cl.failed_in_flush_while_owed {
+                                "unwritable-connection-not-released:closed-by-flush-while-answers-were-owed"
+                            } else {
+                                "unwritable-connection-not-released"
+                            };
+                            return Err(self.v(
+                                class,
+                                format!(
+                                    "a write to client {} failed (it can no longer be written to) and everything yielded from it was answered, but the server still holds descriptor {}",
+                                    cid, fd
+                                ),
+                            ));
+                        }
                         if cl.closed {
                             return Err(self.v(
                                 "connection-not-released",
